@@ -11,20 +11,23 @@ import itertools
 
 import numpy as np
 
-from ..common import setup_paths, rnd
+from ..common import setup_paths, rnd, enc, dec as jdec
 from .. import refgauss as rg, gen
 
 PROPERTY = "C18"
 RULE = ("seeded base programs (1-4 modes, 2-9 commands over Gaussian gates, channels and preparations, dagger forms) "
         "paired with a mutant produced by one controlled operator (identical copy, proper prefix, extension, dagger "
         "flip, first-parameter tweak below/above atol, tail-parameter tweak, mode swap on a two-mode gate, gate-class "
-        "swap, commuting reorder, target-mode change, register-size change); non-trivial = the pair differs in exactly "
+        "swap, commuting reorder, target-mode change, register-size change, first parameter changed in its fifth significant "
+        "digit, rotation between two interior rows of an interferometer matrix (2, 3 and 34 modes)); non-trivial = the pair differs in exactly "
         "one controlled aspect (mutation != identical) and both comparisons returned; distinct = (rounded base, mutation).")
 ASSUMPTIONS = [
     "'compute the same thing' is decided on the Gaussian fragment by the reference net action; tolerance 1e-4 "
     "(equivalence itself compares parameters with atol 1e-6)",
     "equivalence is allowed to identify programs that differ by one global relabelling of modes",
-    "programs with array-valued parameters are not compared with == (numpy truth-value semantics)",
+    "programs with array-valued parameters: a raising == (numpy truth-value semantics) claims nothing and is counted, a "
+    "returned True is judged like any other; relabelling of modes is not considered for the 34-mode array programs "
+    "(their mutations never relabel)",
 ]
 REQUIRED_MONITORS = ["eq:returned", "equiv:returned", "eq:true-checked", "equiv:true-checked", "reflexive",
                      "symmetric", "commuting-reorder"]
@@ -55,6 +58,18 @@ def rand_params(rng, name):
 
 
 def gen_base(rng):
+    if rng.random() < 0.08:
+        # a program with an array-valued parameter: an interferometer on all modes of a small or a large register
+        # (34 x 34: more than 1000 entries)
+        n = int(rng.choice([2, 3, 34]))
+        cmds = []
+        for _ in range(int(rng.integers(1, 4))):
+            name = str(rng.choice(["Sgate", "Dgate", "Rgate"]))
+            cmds.append({"op": name, "p": rand_params(rng, name), "m": [int(rng.integers(min(n, 4)))], "dag": False})
+        cmds.append({"op": "Interferometer", "p": [enc(gen.haar(rng, n))], "m": list(range(n)), "dag": False})
+        name = str(rng.choice(["Sgate", "Rgate"]))
+        cmds.append({"op": name, "p": rand_params(rng, name), "m": [int(rng.integers(min(n, 4)))], "dag": False})
+        return {"n": n, "cmds": cmds, "array": True}
     n = int(rng.integers(1, 5))
     L = int(rng.integers(2, 10))
     cmds = []
@@ -72,7 +87,9 @@ def gen_base(rng):
 
 
 MUTATIONS = ["identical", "prefix", "extension", "dagger_flip", "p0_below_atol", "p0_above_atol", "tail_tweak",
-             "mode_swap", "class_swap", "commuting_reorder", "target_change", "register_size"]
+             "mode_swap", "class_swap", "commuting_reorder", "target_change", "register_size", "p0_fifth_digit",
+             "array_interior"]
+ARRAY_MUTATIONS = ["identical", "prefix", "dagger_flip", "p0_above_atol", "p0_fifth_digit", "array_interior"]
 
 
 def mutate(rng, base, kind):
@@ -93,13 +110,34 @@ def mutate(rng, base, kind):
     rng.shuffle(idx)
     if kind == "dagger_flip":
         for i in idx:
-            if c[i]["op"] in GATES and c[i]["op"] != "Fouriergate" and NARGS[c[i]["op"]] > 0:
+            if c[i]["op"] in GATES and c[i]["op"] != "Fouriergate" and NARGS.get(c[i]["op"], 0) > 0:
                 c[i]["dag"] = not c[i]["dag"]
+                return q
+        return None
+    if kind == "p0_fifth_digit":
+        # the first parameter changes in its fifth significant digit
+        for i in idx:
+            if NARGS.get(c[i]["op"], 0) >= 1 and abs(c[i]["p"][0]) > 1e-3:
+                c[i]["p"][0] *= 1 + 6e-5
+                return q
+        return None
+    if kind == "array_interior":
+        # a rotation between two middle rows of the interferometer matrix (for 34 modes no entry in the first or last
+        # three rows / columns... of the rows printed by numpy's summarised repr changes)
+        for i in idx:
+            if c[i]["op"] == "Interferometer":
+                U = np.array(jdec(c[i]["p"][0]))
+                n = U.shape[0]
+                a, b = (n // 2 - 1, n // 2) if n >= 2 else (0, 0)
+                G = np.eye(n, dtype=complex)
+                th = 0.7
+                G[a, a], G[a, b], G[b, a], G[b, b] = np.cos(th), -np.sin(th), np.sin(th), np.cos(th)
+                c[i]["p"][0] = enc(G @ U)
                 return q
         return None
     if kind in ("p0_below_atol", "p0_above_atol"):
         for i in idx:
-            if NARGS[c[i]["op"]] >= 1:
+            if NARGS.get(c[i]["op"], 0) >= 1:
                 c[i]["p"][0] += 1e-9 if kind == "p0_below_atol" else float(rng.choice([3e-3, 0.05, 0.4]))
                 return q
         return None
@@ -149,7 +187,7 @@ def mutate(rng, base, kind):
 
 
 def spec_tuples(spec):
-    return [(c["op"], c["p"], c["m"], c.get("dag", False)) for c in spec["cmds"]]
+    return [(c["op"], [jdec(x) for x in c["p"]], c["m"], c.get("dag", False)) for c in spec["cmds"]]
 
 
 def same_action(a, b, tol=1e-4):
@@ -232,19 +270,26 @@ def run_case(case, rep, ctx):
         tag = kind + ":" + (diff[0]["op"] if kind == "mode_swap" and diff else "one-mode-op")
 
     ctx.log.clear()
+    r1 = r2 = e1 = e2 = None
     try:
         r1 = P == Q
         r2 = Q == P
+    except Exception as e:  # a raising comparison reports nothing; recorded, not judged
+        rep.observe("comparison-raised:==:%s:%s" % (kind, type(e).__name__))
+        r1 = r2 = None
+    try:
         e1 = P.equivalence(Q)
         e2 = Q.equivalence(P)
-    except Exception as e:  # a raising comparison reports nothing; recorded, not judged
-        rep.observe("comparison-raised:%s:%s" % (kind, type(e).__name__))
-        return
+    except Exception as e:
+        rep.observe("comparison-raised:equivalence:%s:%s" % (kind, type(e).__name__))
+        e1 = e2 = None
     rep.observe("outcome:%s:eq=%s:equiv=%s" % (kind, r1, e1))
+    if base.get("array"):
+        rep.observe("array-program:n=%d:%s:eq=%s:equiv=%s" % (base["n"], kind, r1, e1))
     rep.monitor("symmetric", 2)
-    if bool(r1) != bool(r2):
+    if r1 is not None and bool(r1) != bool(r2):
         V("Program.__eq__", "asymmetric:" + kind, "P == Q is %s but Q == P is %s (mutation %s)" % (r1, r2, kind))
-    if bool(e1) != bool(e2):
+    if e1 is not None and bool(e1) != bool(e2):
         V("program_equivalence", "asymmetric:" + kind, "P~Q is %s but Q~P is %s (mutation %s)" % (e1, e2, kind))
     for rel, A, B, r in list(ctx.log):
         if not r:
@@ -252,25 +297,32 @@ def run_case(case, rep, ctx):
         a, b = (aP, aQ) if A is P else (aQ, aP)
         if rel == "eq":
             rep.monitor("eq:true-checked")
-            if not (same_action(a, b) and base["n"] == mut["n"]):
+            # (== compares parameters exactly, so programs it calls equal must have the same action to rounding)
+            if not (same_action(a, b, 1e-9) and base["n"] == mut["n"]):
                 V("Program.__eq__", "true-but-different:" + tag,
                   "programs compare equal but their net actions differ (mutation: %s)" % kind)
         else:
             rep.monitor("equiv:true-checked")
-            if not same_action(a, b) and not same_up_to_relabelling(a, b, n):
+            if not same_action(a, b) and (n > 6 or not same_up_to_relabelling(a, b, n)):
                 V("program_equivalence", "true-but-different:" + tag,
                   "programs reported equivalent but their net actions differ, also up to relabelling of modes "
                   "(mutation: %s)" % kind)
     # reflexivity (same object)
     rep.monitor("reflexive", 2)
-    if not (P == P):
-        V("Program.__eq__", "not-reflexive", "P == P is False")
-    if not P.equivalence(P):
-        V("program_equivalence", "not-reflexive", "P.equivalence(P) is False")
-    if kind == "identical":
+    try:
+        if not (P == P):
+            V("Program.__eq__", "not-reflexive", "P == P is False")
+    except Exception as e:
+        rep.observe("comparison-raised:==:reflexive:%s" % type(e).__name__)
+    try:
+        if not P.equivalence(P):
+            V("program_equivalence", "not-reflexive", "P.equivalence(P) is False")
+    except Exception as e:
+        rep.observe("comparison-raised:equivalence:reflexive:%s" % type(e).__name__)
+    if kind == "identical" and e1 is not None:
         if not e1:
             V("program_equivalence", "identical-copy-inequivalent", "an identical copy is reported inequivalent")
-    if kind == "commuting_reorder":
+    if kind == "commuting_reorder" and e1 is not None:
         rep.monitor("commuting-reorder")
         if not e1:
             V("program_equivalence", "commuting-reorder-inequivalent",
@@ -287,7 +339,7 @@ def run_shard(shard, rep):
     rng = np.random.default_rng([shard["seed"], shard["id"], 18])
     for _ in range(shard["n"]):
         base = gen_base(rng)
-        for kind in MUTATIONS:
+        for kind in (ARRAY_MUTATIONS if base.get("array") else MUTATIONS):
             mut = mutate(rng, base, kind)
             if mut is None:
                 continue
